@@ -400,10 +400,17 @@ func hyperOrderingConvention(c *Ctx, rule string) {
 	}
 	var travs []posTrav
 	for _, fn := range p.ModFuncs {
-		if fn.Pkg != sp || fn.Parent() == nil || p.isTestScaffold(fn) {
+		if fn.Pkg != sp || p.isTestScaffold(fn) || fn.Synthetic != "" {
+			continue
+		}
+		// traversal closures, or unexported recursive functions/methods (a closure given a name)
+		if fn.Parent() == nil && (fn.Object() == nil || fn.Object().Exported() || len(selfCalls(fn)) == 0) {
 			continue
 		}
 		for i, par := range fn.Params {
+			if i == 0 && fn.Signature.Recv() != nil {
+				continue
+			}
 			if namedIs(par.Type(), pkgHyper, "position") {
 				travs = append(travs, posTrav{fn, i})
 				break
